@@ -3925,3 +3925,91 @@ func E5CMapBlockLimit(c *core.Ctx, r *core.Report) {
 	r.Count("E5.cmap-blocks", n)
 	r.Floor("E5.cmap-blocks", 2)
 }
+
+// E5WidthIDSpace: the /W widths are looked up with an ID of the font they are looked up in.
+func E5WidthIDSpace(c *core.Ctx, r *core.Report) {
+	r.Rule("E5.width-id-space", "pdfWriter.writeFont fills the width table per subset code from `range glyphIDs`: the key is the code used in the content stream, the value the glyph's ID in the loaded font. The embedded program (`sfnt`) is the subset on one path and the loaded font itself on the others (SubsetFonts off, or subsetting failed), so no index is right for it on every path: an advance is looked up in the loaded font (an expression that is not a reassigned local) with the range value, or in a local that is a subset on *every* path with the range key. Widths read from `sfnt` by code give, without subsetting, the advance of full-font glyph number `code` — 'W' at code 1 gets width 0 — and a reader places every following glyph wrongly")
+	p := c.MustPkg(pdfRel)
+	info := p.TypesInfo
+	fd := core.MustFuncDecl(p, "pdfWriter.writeFont")
+	n := 0
+	ast.Inspect(fd.Body, func(m ast.Node) bool {
+		rs, ok := m.(*ast.RangeStmt)
+		if !ok {
+			return true
+		}
+		var keyObj, valObj types.Object
+		if id, ok := rs.Key.(*ast.Ident); ok && id.Name != "_" {
+			keyObj = core.ObjOf(info, id)
+		}
+		if rs.Value != nil {
+			if id, ok := rs.Value.(*ast.Ident); ok && id.Name != "_" {
+				valObj = core.ObjOf(info, id)
+			}
+		}
+		ast.Inspect(rs.Body, func(k ast.Node) bool {
+			call, ok := k.(*ast.CallExpr)
+			if !ok || len(call.Args) != 1 {
+				return true
+			}
+			se, ok := call.Fun.(*ast.SelectorExpr)
+			if !ok || (se.Sel.Name != "GlyphAdvance" && se.Sel.Name != "GlyphVerticalAdvance") {
+				return true
+			}
+			n++
+			key := fmt.Sprintf("pdf.pdfWriter.writeFont|advance lookup #%d", n)
+			// which range variable is the argument?
+			argIs := ""
+			ast.Inspect(call.Args[0], func(q ast.Node) bool {
+				if id, ok := q.(*ast.Ident); ok {
+					switch core.ObjOf(info, id) {
+					case keyObj:
+						if keyObj != nil {
+							argIs = "code"
+						}
+					case valObj:
+						if valObj != nil {
+							argIs = "glyph ID"
+						}
+					}
+				}
+				return true
+			})
+			// the receiver: a local with more than one assignment is one thing on one path and another on the next
+			recvKind := "loaded font"
+			if id, ok := core.Unparen(se.X).(*ast.Ident); ok {
+				o := core.ObjOf(info, id)
+				asg := 0
+				ast.Inspect(fd.Body, func(q ast.Node) bool {
+					if as, ok := q.(*ast.AssignStmt); ok {
+						for _, l := range as.Lhs {
+							if lid, ok := l.(*ast.Ident); ok && core.ObjOf(info, lid) == o {
+								asg++
+							}
+						}
+					}
+					return true
+				})
+				if asg > 1 {
+					recvKind = "reassigned local"
+				} else if asg == 1 {
+					recvKind = "local"
+				}
+			}
+			switch {
+			case argIs == "":
+				return true // not a per-code lookup
+			case recvKind == "reassigned local":
+				r.Fail("E5.width-id-space", key, c.Pos(call.Pos()), fmt.Sprintf("`%s` looks the advance up in `%s`, which is the subset on one path and the loaded font on another: indexed by %s it is wrong on one of them (without subsetting, code k is not glyph k of the full font)", c.Src(call), c.Src(se.X), argIs))
+			case argIs == "glyph ID":
+				r.OK("E5.width-id-space", key, c.Pos(call.Pos()), "the loaded font, by glyph ID")
+			default:
+				r.Fail("E5.width-id-space", key, c.Pos(call.Pos()), fmt.Sprintf("`%s` indexes `%s` by the subset code", c.Src(call), c.Src(se.X)))
+			}
+			return true
+		})
+		return true
+	})
+	r.Count("E5.width-lookups", n)
+	r.Floor("E5.width-lookups", 1)
+}
